@@ -303,7 +303,7 @@ fn replay(ctx: &Ctx, _engine: &str, case: &Value) -> CaseResult {
 pub static C19: PropDef = PropDef {
     id: "C19",
     level: "exploration",
-    rule: "proptest generates a program name (non-empty, no slash, not a shell builtin; the shell's reserved words are included as program names) and 0..11 arguments over Unicode without NUL, weighted to the empty string, blanks, tab, newline, both quotes, $ ` \\ * ? [ ] ~ # = ! & | ; < > ( ) { }, leading dashes, control and non-ASCII characters; complete glob patterns ([..], *, ?) made of otherwise harmless characters; 1 stage (Exec) or 2..4 stages (Pipeline). For every word that would be a glob pattern, files it would match are placed in the directory of evaluation. The Debug text / to_cmdline_lossy is evaluated by a real shell (`sh <script>`, = dash; thorough also `bash --posix <script>`) with PATH pointing at a scratch directory in which each program name is a hard link of the helper that prints its argv in hex after copying its stdin; the recorded vectors, in pipeline order, must equal the originals. Non-trivial = some word needs quoting or is empty; distinct = distinct cases among those.",
+    rule: "proptest generates a program name (non-empty, no slash, not a shell builtin; the shell's reserved words are included as program names) and 0..11 arguments over Unicode without NUL, weighted to the empty string, blanks, tab, newline, both quotes, $ ` \\ * ? [ ] ~ # = ! & | ; < > ( ) { }, leading dashes, control and non-ASCII characters; complete glob patterns ([..], *, ?) made of otherwise harmless characters; 1 stage (Exec) or 2..4 stages (Pipeline). For every word that would be a glob pattern, files it would match are placed in the directory of evaluation. The Debug text / to_cmdline_lossy is evaluated by a real shell (`sh <script>`, = dash; thorough also `bash --posix <script>`) with PATH pointing at a scratch directory in which each program name is a hard link of the helper that prints its argv in hex after copying its stdin; the recorded vectors, in pipeline order, must equal the originals. Non-trivial = some word needs quoting or is empty; distinct = distinct cases among those. Words of the form ~user for existing login names are included; names starting with % are excluded (bash takes them for job specifications, quoted or not).",
     assumptions: &["dash (and bash --posix in thorough) stand for `a POSIX shell`", "environment rendering is out of scope (env left unset)"],
     engines: "real",
     workers: |_| 16,
